@@ -581,6 +581,9 @@ impl Generator {
             link.push_goto(column, ln)?;
         }
         if is_gosub {
+            // Selector out of range: nothing was called, so take the return
+            // address pushed above off the stack again.
+            link.push(Opcode::Return)?;
             link.push_symbol(ret_symbol);
         }
         Ok(col.start..sub_col.end)
